@@ -105,11 +105,43 @@ fn check_reported(rep: &mut Report, what: &str, mode: OffsetMode, reported: Opti
 const MODES: [OffsetMode; 4] = [OffsetMode::BeginBegin, OffsetMode::BeginEnd, OffsetMode::EndBegin, OffsetMode::EndEnd];
 
 fn resource_case(rep: &mut Report, text: &str) {
+    let cs = cursors(text.chars().count());
+    resource_case_with(rep, text, Config::default().with_debug(false), cs);
+}
+
+/// texts that are longer than the milestone interval (the default one of 100 characters, or a small configured one): cursors at
+/// and around the milestones, the ends, and random ones, in both alignments
+fn milestone_case(rep: &mut Report, rng: &mut Rng) {
+    let (interval, len) = if rng.chance(1, 2) { (100usize, rng.range(101, 230) as usize) } else { (rng.range(1, 5) as usize, rng.range(6, 24) as usize) };
+    let alphabet = ['a', 'b', ' ', '\u{e9}', '\u{65e5}', '\u{1f600}'];
+    // multi-byte characters early on, so that byte and character positions differ at every milestone
+    let text: String = (0..len).map(|i| if i < 3 && rng.chance(2, 3) { alphabet[3 + rng.below(3)] } else { alphabet[rng.below(alphabet.len())] }).collect();
+    let mut points: Vec<usize> = vec![0, 1, len.saturating_sub(1), len, len + 1];
+    let mut m = interval;
+    while m <= len && points.len() < 14 {
+        points.extend([m.saturating_sub(1), m, m + 1]);
+        m += interval * (1 + rng.below(2));
+    }
+    for _ in 0..3 {
+        points.push(rng.below(len + 1));
+    }
+    points.sort();
+    points.dedup();
+    let mut cs: Vec<Cur> = Vec::new();
+    for x in points {
+        cs.push(Cur::B(x));
+        cs.push(Cur::E(x as isize - len as isize));
+    }
+    rep.distinct(&format!("milestones/interval:{}/len:{}", if interval == 100 { "default" } else { "small" }, if len > 100 { ">100" } else { "<=24" }));
+    let cfg = if interval == 100 { Config::default().with_debug(false) } else { Config::default().with_debug(false).with_milestone_interval(interval) };
+    resource_case_with(rep, &text, cfg, cs);
+}
+
+fn resource_case_with(rep: &mut Report, text: &str, cfg: Config, cs: Vec<Cur>) {
     let chars: Vec<char> = text.chars().collect();
     let len = chars.len();
-    let mut store = AnnotationStore::new(Config::default().with_debug(false)).with_id("c04");
+    let mut store = AnnotationStore::new(cfg).with_id("c04");
     store.add_resource(TextResourceBuilder::new().with_id("r").with_text(text)).expect("resource");
-    let cs = cursors(len);
     let mut n = 0usize;
     for b in &cs {
         for e in &cs {
@@ -494,7 +526,7 @@ fn extremes(rep: &mut Report) {
 }
 
 pub fn run(p: &Params, rep: &mut Report) {
-    rep.rule = "exhaustive: every text of length 0..=L over {a, é(2 bytes), 😀(4 bytes)} x every pair of cursors of either alignment with values in [-len-2, len+2] -> annotate(TextSelector) and FindText::textselection on the resource; for texts of length 4-5 every parent range x every relative cursor pair -> annotate(AnnotationSelector+offset) and FindText::textselection on the parent's selection; plus random chains of depth 2-3, complex selectors over two neighbouring parents with every pair of whole / almost-whole relative offsets (9 x 9 shapes x 3 selector kinds), and extreme cursors (isize::MIN, usize::MAX). Oracle: arithmetic on Vec<char>; every accepted annotation's text/ranges and its offset reported in all four OffsetModes (well-formed, re-resolving to the same range). distinct_nontrivial = distinct (path, accept|reject, alignment, reason|shape) classes".into();
+    rep.rule = "exhaustive: every text of length 0..=L over {a, é(2 bytes), 😀(4 bytes)} x every pair of cursors of either alignment with values in [-len-2, len+2] -> annotate(TextSelector) and FindText::textselection on the resource; for texts of length 4-5 every parent range x every relative cursor pair -> annotate(AnnotationSelector+offset) and FindText::textselection on the parent's selection; plus texts longer than the milestone interval (101-230 characters with the default interval, 6-24 with an interval of 1-5) with cursors at and around the milestones; plus random chains of depth 2-3, complex selectors over two neighbouring parents with every pair of whole / almost-whole relative offsets (9 x 9 shapes x 3 selector kinds), and extreme cursors (isize::MIN, usize::MAX). Oracle: arithmetic on Vec<char>; every accepted annotation's text/ranges and its offset reported in all four OffsetModes (well-formed, re-resolving to the same range). distinct_nontrivial = distinct (path, accept|reject, alignment, reason|shape) classes".into();
     rep.assumptions = vec!["BeginAligned(x) -> x, EndAligned(x<=0) -> len+x, anything else invalid; accepted iff 0<=b<=e<=len of the addressed text (property statement)".into()];
     let maxlen = if p.thorough { 5 } else { 4 };
     let alphabet = ['a', 'é', '😀'];
@@ -514,6 +546,9 @@ pub fn run(p: &Params, rep: &mut Report) {
     }
     for i in 0..(if p.thorough { 60 } else { 16 }) {
         units.push((4, i));
+    }
+    for i in 0..(if p.thorough { 200 } else { 48 }) {
+        units.push((5, i));
     }
     units.push((3, 0));
     for k in p.cases(units.len() as u64) {
@@ -548,6 +583,10 @@ pub fn run(p: &Params, rep: &mut Report) {
             4 => {
                 let mut rng = Rng::new(p.seed, "c04-complex", i as u64);
                 complex_case(rep, &mut rng);
+            }
+            5 => {
+                let mut rng = Rng::new(p.seed, "c04-milestones", i as u64);
+                milestone_case(rep, &mut rng);
             }
             _ => extremes(rep),
         }
